@@ -595,7 +595,7 @@ fn run(p: &Pools, input: &Value) -> Case {
     let ers = clist((0..p.faces.len()).filter(|i| !shows_on_blank(p.faces[*i])).map(|i| i.to_string()));
 
     if input["kind"].as_str() == Some("forced") {
-        return run_forced(p, input, &ops, dom && !overlap, &widths, &clist(isizes), &fsp, &fer, &ers);
+        return run_forced(p, input, &ops, dom && !(kinds.0 || kinds.1), &widths, &clist(isizes), &fsp, &fer, &ers);
     }
     let observed = drive(p, h, w, false, &ops);
     let (impl_coq, impl_json, ncmds, has_ech) = match &observed {
@@ -618,9 +618,10 @@ fn run(p: &Pools, input: &Value) -> Case {
     let nframes = ops.iter().filter(|o| matches!(o, Op::Frame)).count();
     let mut j = json!({"h": h, "w": w, "ops": ops_json(&ops)});
     j["impl"] = impl_json;
-    if overlap {
+    if kinds.0 || kinds.1 {
         let mut tags = vec![];
-        for (on, name) in [(kinds.0, "OverlapImages"), (kinds.1, "OverlapWideImage"), (kinds.2, "OverlapWide")] {
+        // wide characters hiding one another (kinds.2) are inside the theorems: not a known class
+        for (on, name) in [(kinds.0, "OverlapImages"), (kinds.1, "OverlapWideImage")] {
             if on {
                 tags.push(name);
             }
@@ -923,7 +924,7 @@ fn gen_history(rng: &mut Rng, p: &Pools) -> Value {
 fn gen_forced(rng: &mut Rng, p: &Pools) -> Value {
     let h = 1 + rng.below(5) as usize;
     let w = 1 + rng.below(10) as usize;
-    let mut g = Gen { p, env: Env::new(p, h, w), h, w, mode: 0, ood: false };
+    let mut g = Gen { p, env: Env::new(p, h, w), h, w, mode: rng.below(2) as u8, ood: false };
     let s1 = g.next_surface(rng, &blank_surf(h, w));
     let s = g.next_surface(rng, &s1);
     let nf = rng.below(3);
@@ -963,7 +964,7 @@ fn overlap_free_prefix(p: &Pools, input: &Value) -> Option<Value> {
                 w = *w2;
             }
             Op::Draw(s) => {
-                if s.len() == h && s.iter().all(|r| r.len() == w) && !overlap_free(&mut env, p, s, h, w) {
+                if s.len() == h && s.iter().all(|r| r.len() == w) && { let k = overlap_kinds(&mut env, p, s, h, w); k.0 || k.1 } {
                     cut = Some(i);
                     break;
                 }
